@@ -546,6 +546,11 @@ def main(argv):
         return _main(pid, P, tier, repo, seed, scratch, ev_path, t0)
     except Undecided as e:
         return unit_fallback(pid, P, tier, seed, repo, e, ev_path, t0, None)
+    except Exception as e:   # a defect of the checker itself is never an alarm
+        import traceback
+        traceback.print_exc()
+        print('UNDECIDED property=%s: internal error of the checker (%s: %s)' % (pid, type(e).__name__, str(e)[:300]))
+        return 2
     finally:
         if not keep:
             shutil.rmtree(scratch, ignore_errors=True)
@@ -573,7 +578,7 @@ def unit_fallback(pid, P, tier, seed, repo, e, ev_path, t0, cache):
                     runs = vpreplay.run_scenarios(repo, scen)[0]
                     if cache is not None:
                         cache[key] = runs
-            hits = [(r['scenario'], fd) for r in runs for fd in r.get('findings', []) if pid in fd.get('tags', [])]
+            hits = [(str(r.get('scenario') or '-'), fd) for r in runs for fd in r.get('findings', []) if pid in fd.get('tags', [])]
         except Exception as e2:
             log('sweep fallback failed:', e2)
     if hits:
@@ -588,9 +593,9 @@ def unit_fallback(pid, P, tier, seed, repo, e, ev_path, t0, cache):
             print('VIOLATION property=%s replay=%s' % (pid, rp))
             print('  bounded stand-in (concrete oracle sweep %s): %s' % (sc, fd['text'][:300]))
         write_evidence(ev_path, pid, tier, seed, P, dict(obligations=0, discharged=0, undecided=str(e),
-                       bounded_checks=[dict(name='sweep ' + r['scenario'], status=r['outcome']) for r in runs]), t0, violations=len(hits), undecided=True)
+                       bounded_checks=[dict(name='sweep ' + str(r.get('scenario') or '-'), status=r['outcome']) for r in runs]), t0, violations=len(hits), undecided=True)
         return 1
-    print('UNDECIDED property=%s: %s%s' % (pid, e, (' -- concrete oracle sweeps found nothing for this property: ' + ', '.join(r['scenario'] for r in runs)) if runs else ''))
+    print('UNDECIDED property=%s: %s%s' % (pid, e, (' -- concrete oracle sweeps found nothing for this property: ' + ', '.join(str(r.get('scenario') or '-') for r in runs)) if runs else ''))
     write_evidence(ev_path, pid, tier, seed, P, dict(obligations=0, discharged=0, undecided=str(e)), t0, undecided=True)
     return 2
 
@@ -866,7 +871,7 @@ def _main(pid, P, tier, repo, seed, scratch, ev_path, t0):
                                     rendered=h.get('output_tail', ''), concrete=h.get('failed_checks')), None))
         # bounded stand-in 2: the concrete oracle sweeps of the replay driver (a finite set of inputs against independent
         # formulas); a finding tagged with this property refutes it with a concrete failing input, a clean sweep proves nothing
-        sweep_hits = [(r['scenario'], fd) for r in sweep_runs for fd in r.get('findings', []) if pid in fd.get('tags', [])]
+        sweep_hits = [(str(r.get('scenario') or '-'), fd) for r in sweep_runs for fd in r.get('findings', []) if pid in fd.get('tags', [])]
         for k, (sc, fd) in enumerate(sweep_hits):
             violations.append((dict(kind='sweep-bounded', clause='sweep.%s.%d' % (sc.split()[0], k + 1), tags=[pid], fn=';'.join(f['id'] for _, f in degraded_relevant)[:200],
                                     repo_file=degraded_relevant[0][1].get('file'), repo_line=None, fn_repo_lines=None,
@@ -875,8 +880,8 @@ def _main(pid, P, tier, repo, seed, scratch, ev_path, t0):
         if not failed_fb and not sweep_hits:
             undecided.append('not verified (degraded to an assumed contract): ' + '; '.join('%s: %s' % (f['id'], f['degraded']) for _, f in degraded_relevant)[:1500]
                              + (' -- bounded stand-ins passed: ' + ','.join(h['name'] for h in fb_res['harnesses']) if fb_res and fb_res.get('harnesses') else '')
-                             + (' -- concrete oracle sweeps found nothing for this property: ' + ', '.join(r['scenario'] for r in sweep_runs) if sweep_runs else ''))
-    for k, (sc, fd) in enumerate([(r['scenario'], fd) for r in thorough_sweeps for fd in r.get('findings', []) if pid in fd.get('tags', [])]):
+                             + (' -- concrete oracle sweeps found nothing for this property: ' + ', '.join(str(r.get('scenario') or '-') for r in sweep_runs) if sweep_runs else ''))
+    for k, (sc, fd) in enumerate([(str(r.get('scenario') or '-'), fd) for r in thorough_sweeps for fd in r.get('findings', []) if pid in fd.get('tags', [])]):
         violations.append((dict(kind='sweep-bounded', clause='sweep.%s.t%d' % ((sc or '-').split()[0], k + 1), tags=[pid], fn='-', repo_file=None, repo_line=None, fn_repo_lines=None,
                                 message='thorough tier, bounded check (concrete oracle sweep %s): %s' % (sc, fd['text']), rendered=fd['text'], concrete=[fd['text']]), None))
     # Kani part
@@ -912,7 +917,7 @@ def _main(pid, P, tier, repo, seed, scratch, ev_path, t0):
         'la_lemmas_verified_no_cheating': la_verified,
         'vacuity_probes_failed_as_required': sum(p[0] for p in probes),
         'bounded_checks': [dict(name=h['name'], bound=h.get('bound', ''), status=h['status']) for h in kres.get('harnesses', []) if h['kind'] != 'complete']
-                          + [dict(name='sweep ' + r['scenario'], bound='fixed finite set of concrete problems against an independent oracle (replay/drivers/vp_replay.rs)', status=r['outcome']) for r in sweep_runs + thorough_sweeps],
+                          + [dict(name='sweep ' + str(r.get('scenario') or '-'), bound='fixed finite set of concrete problems against an independent oracle (replay/drivers/vp_replay.rs)', status=r['outcome']) for r in sweep_runs + thorough_sweeps],
         'complete_kani_harnesses': [dict(name=h['name'], status=h['status']) for h in kres.get('harnesses', []) if h['kind'] == 'complete'],
         'not_decided': P.get('not_decided', []),
         'assumed_from_dependency': P.get('assumed_from_dependency', []),
@@ -1008,6 +1013,9 @@ def main_all(argv):
             except Undecided as e:
                 with contextlib.redirect_stdout(buf):
                     rc = unit_fallback(pid, props[pid], 'quick', 0, repo, e, os.path.join(evdir, pid + '.json'), t0, _CACHE)
+            except Exception as e:   # a defect of the checker itself is never an alarm
+                rc = 2
+                buf.write('UNDECIDED property=%s: internal error of the checker (%s: %s)' % (pid, type(e).__name__, str(e)[:200]))
             out[pid] = rc
             txt = buf.getvalue().strip().replace('\n', ' | ')
             print('%s rc=%d %s' % (pid, rc, txt[:300]))
